@@ -418,7 +418,9 @@ def run(rep, tier):
         raise AnalysisBroken("set_last_worker_thread_num: only %d call sites found in the library" % len(sites))
     for f, ev in sites:
         a = strip(ev["args"][0])
-        local_call = a.get("k") == "call" and callee_of(a).endswith("::get_local_worker_thread_num")
+        from engine.kinds import expand_locals
+        ax = strip(expand_locals(f, a))
+        local_call = ax.get("k") == "call" and callee_of(ax).endswith("::get_local_worker_thread_num")
         own_index = a.get("k") == "var" and a.get("param") and f.qname.endswith("scheduling_loop")
         if local_call or own_index:
             rep.ok("C10.R5", f, "%s records a pool-local worker number (%s)" % (f.qname.rsplit("::", 1)[-1], T(a)))
